@@ -243,8 +243,13 @@ impl<'a, Input: InputIndexer> MatchAttempter<'a, Input> {
     ) -> Option<(Input::Position, Input::Position)> {
         match re.insns.iat(ip + 1) {
             &Insn::Char(c) => {
-                let c = <<Input as InputIndexer>::Element as ElementType>::try_from(c)?;
-                Self::run_scm_loop_impl(input, pos, min, max, dir, scm::Char { c })
+                // A char which the input's element type cannot represent never matches:
+                // the loop then iterates zero times, which succeeds only if min is 0.
+                match <<Input as InputIndexer>::Element as ElementType>::try_from(c) {
+                    Some(c) => Self::run_scm_loop_impl(input, pos, min, max, dir, scm::Char { c }),
+                    None if min == 0 => Some((pos, pos)),
+                    None => None,
+                }
             }
             &Insn::Bracket(idx) => {
                 let bc = &re.brackets[idx];
@@ -316,8 +321,11 @@ impl<'a, Input: InputIndexer> MatchAttempter<'a, Input> {
     ) -> Option<Input::Position> {
         let result = match re.insns.iat(ip + 1) {
             &Insn::Char(c) => {
-                let c = <<Input as InputIndexer>::Element as ElementType>::try_from(c)?;
-                Self::compute_max_pos(input, pos, limit, dir, scm::Char { c })
+                // A char which the input's element type cannot represent never matches.
+                match <<Input as InputIndexer>::Element as ElementType>::try_from(c) {
+                    Some(c) => Self::compute_max_pos(input, pos, limit, dir, scm::Char { c }),
+                    None => pos,
+                }
             }
             &Insn::Bracket(idx) => {
                 let bc = &re.brackets[idx];
